@@ -151,6 +151,9 @@ Definition h_parse_int (a : list sx) : sx :=
   | _ => err "arity"
   end.
 
+(* (unicode_tables) -> ((first code point of every run of ten decimal digits ...) (white space code points >= 127 ...)) *)
+Definition h_unicode_tables (a : list sx) : sx := SL [slist sN udigit_zeros; slist sN uspaces].
+
 Definition h_path_to_cats (a : list sx) : sx :=
   match a with
   | [hive; pm; dirs; parts; o] =>
@@ -208,6 +211,6 @@ Definition h_read_model (a : list sx) : sx :=
 
 Definition table : list (string * handler) :=
   [("path_string", h_path_string); ("join_path", h_join_path); ("val_from_meta", h_val_from_meta);
-   ("val_to_num", h_val_to_num); ("parse_int", h_parse_int); ("path_to_cats", h_path_to_cats);
+   ("val_to_num", h_val_to_num); ("parse_int", h_parse_int); ("unicode_tables", h_unicode_tables); ("path_to_cats", h_path_to_cats);
    ("paths_to_cats", h_paths_to_cats); ("strip_tail", h_strip_tail);
    ("write_model", h_write_model); ("read_model", h_read_model)].
